@@ -522,9 +522,17 @@ func c18DocWritesInLog(ops []*base.VerifOp) map[string]int {
 	return out
 }
 
+const c18FixedBase = 100000 // case indexes of the fixed minimal histories
+
 func (e *c18Env) runCase(idx int) {
 	run := e.run
-	c := c18GenCase(run.CaseRand(idx), idx)
+	var c *c18Case
+	if idx >= c18FixedBase {
+		c = c18FixedCases(c18FixedBase)[idx-c18FixedBase]
+		run.Count("fixed_histories_run", 1)
+	} else {
+		c = c18GenCase(run.CaseRand(idx), idx)
+	}
 	defer func() {
 		if p := recover(); p != nil {
 			if a, ok := p.(c18Abort); ok {
@@ -572,6 +580,10 @@ func (e *c18Env) runCase(idx int) {
 	run.Count("docs_changed_by_first_resync", int(st1.DocsChanged))
 	run.Count("docs_processed_by_first_resync", int(st1.DocsProcessed))
 	run.Count("doc_writes_logged_first_resync", len(writes1))
+	if int(st1.DocsChanged) != len(writes1) {
+		run.Count("diag_docs_changed_counter_differs_from_logged_document_writes", 1)
+		run.Note("diagnostic: case %d first resync reports docs_changed=%d, the storage log shows %d documents written", idx, st1.DocsChanged, len(writes1))
+	}
 	if st1.DocsErrored != 0 {
 		run.Violation("resync-status", fmt.Sprintf("C18|first-resync-reports-errored-documents|regen=%v", c.Regen),
 			fmt.Sprintf("first resync reported docs_errored=%d", st1.DocsErrored), e.witness(c, map[string]any{"status": st1}))
@@ -610,14 +622,8 @@ func (e *c18Env) runCase(idx int) {
 			keys = append(keys, k)
 		}
 		sort.Strings(keys)
-		shapes := map[string]struct{}{}
-		for _, k := range keys {
-			if d := c.doc(k); d != nil {
-				shapes[d.Shape] = struct{}{}
-			}
-		}
 		run.Violation("second-resync-idempotent",
-			fmt.Sprintf("C18|second-resync-changes-documents|doc-shapes=%s|first-regen=%v", strings.Join(c18Sorted(shapes), "+"), c.Regen),
+			fmt.Sprintf("C18|second-resync-changes-documents|first-regen=%v", c.Regen),
 			fmt.Sprintf("a second resync (no function change, regenerate_sequences=false) wrote documents %v and reported docs_changed=%d", keys, st2.DocsChanged),
 			e.witness(c, map[string]any{"second_status": st2, "documents_written": writes2, "resynced_state": obsR}))
 	}
@@ -963,6 +969,9 @@ func TestVerif_C18_Resync(t *testing.T) {
 	e := &c18Env{t: t, run: run}
 	n := run.N(40, 600)
 	var jobs []int
+	for i := range c18FixedCases(c18FixedBase) {
+		jobs = append(jobs, c18FixedBase+i)
+	}
 	for i := 0; i < n; i++ {
 		jobs = append(jobs, i)
 	}
